@@ -29,6 +29,8 @@ pub struct CryptoLog {
     /// (key, nonce) of every `aead_seal`
     pub aead_seals: Vec<(Vec<u8>, Vec<u8>)>,
     pub enabled: bool,
+    /// a malicious member's provider: the next `kem_generate` returns this public key (with a fresh secret)
+    pub force_kem_pub: Option<Vec<u8>>,
 }
 
 pub type SharedCryptoLog = Arc<Mutex<CryptoLog>>;
@@ -126,7 +128,9 @@ impl<C: CipherSuiteProvider + Clone> CipherSuiteProvider for RecCs<C> {
         self.inner.kem_derive(ikm)
     }
     fn kem_generate(&self) -> Result<(HpkeSecretKey, HpkePublicKey), Self::Error> {
-        self.inner.kem_generate()
+        let forced = self.log.lock().unwrap().force_kem_pub.take();
+        let (sk, pk) = self.inner.kem_generate()?;
+        Ok((sk, forced.map(HpkePublicKey::from).unwrap_or(pk)))
     }
     fn kem_public_key_validate(&self, key: &HpkePublicKey) -> Result<(), Self::Error> {
         self.inner.kem_public_key_validate(key)
